@@ -12,6 +12,11 @@
   * `Shutdown` takes `connsMu` and keeps it until it returns (`defer Unlock`), i.e. for the
     whole wait; handlers need `connsMu` to register (`conns[conn]`, `connsWg.Add(1)`) and to
     unregister (`delete(conns, conn)`), but NOT for `connsWg.Add(-1)`.
+  * `handleLoop` pushes three defers — unregister (`connsMu`, `delete`), `connsWg.Add(-1)`, `conn.Close()` — which
+    run LAST-pushed first: `conn.Close()` is called (`closeStart`) and RETURNS (`closeDone`: a TLS connection
+    sends `close_notify` first and waits up to 5 s for a peer that does not read; a wrapped connection may take
+    any time) BEFORE the counter is decremented, and the map entry goes last.  So the counter `Shutdown` polls
+    still counts a connection whose `Close` is under way (`closingSock`).
   * `closing()` is read: by `Serve` before every `Accept`; by `handleLoop` right after the
     registration (`closingCheck0`); by `handle` AFTER the request was read (`closingCheck`);
     by `writeResponse` before the head is written.
@@ -69,6 +74,8 @@ inductive PC where
   | writing             -- head written with the decided `Connection` option; body being written
   | tunnel              -- CONNECT tunnel copying
   | deferredClose       -- about to run `defer conn.Close()`
+  | closingSock         -- inside `conn.Close()`: the call has begun and has not returned (a TLS `close_notify`
+                        -- to a peer that does not read, a wrapped connection whose Close takes time)
   | counterDec          -- about to run `defer p.connsWg.Add(-1)`
   | waitingForLockUnreg -- in `connsMu.Lock()` of the deferred unregistration
   | lockedUnreg         -- holds connsMu, before `delete(conns, conn)`
@@ -157,7 +164,7 @@ structure Conn where
 def counted : PC → Bool
   | .registered | .closingCheck0 | .tlsHandshake | .idleRead | .requestRead | .closingCheck
   | .roundTrip | .awaitOrigin | .writeResponse | .writing | .tunnel | .deferredClose
-  | .counterDec => true
+  | .closingSock | .counterDec => true
   | _ => false
 
 /-- connections present in the `conns` map -/
@@ -195,7 +202,7 @@ inductive CAct where
   | lockReq | lockAcq | insert | counterAdd | unlockReg | check0
   | tlsDone | tlsFail | firstByte | idleFail | readDone | readFail | check
   | forward | respReady | writeHead | writeHeadFail | writeDone | writeFail | relay | tunnelEnd
-  | sockClose | counterDec | lockAcqU | delete | unlockU
+  | closeStart | closeDone | counterDec | lockAcqU | delete | unlockU
   deriving DecidableEq, Repr, Inhabited, Hashable
 
 /-- One step of the goroutine of a connection, given the two things it reads of the shared
@@ -276,8 +283,12 @@ def cstep (closing lockFree : Bool) (x : Conn) : CAct → Option (Conn × Eff)
   | .tunnelEnd =>
     if x.pc = .tunnel ∧ (x.sockClosed = true ∨ x.clientGone = true ∨ x.originEnded = true) then
       some ({ x with pc := .deferredClose }, .none) else none
-  | .sockClose =>
-    if x.pc = .deferredClose then some ({ x with pc := .counterDec, sockClosed := true }, .none) else none
+  | .closeStart =>
+    -- `defer conn.Close()` is the LAST defer pushed, so it runs first: the call begins …
+    if x.pc = .deferredClose then some ({ x with pc := .closingSock }, .none) else none
+  | .closeDone =>
+    -- … and returns — any time later — with the socket closed; only then does `defer p.connsWg.Add(-1)` run
+    if x.pc = .closingSock then some ({ x with pc := .counterDec, sockClosed := true }, .none) else none
   | .counterDec =>
     if x.pc = .counterDec then some ({ x with pc := .waitingForLockUnreg }, .dec) else none
   | .lockAcqU =>
@@ -545,6 +556,10 @@ structure Variant where
   /-- `shutdownContext` "simplified": `signal.NotifyContext(ctx, cfg.ShutdownSignals...)` is called
       unconditionally — with an EMPTY set that subscribes run's context to EVERY signal -/
   emptyMeansAll : Bool := false
+  /-- `handleLoop`'s three stacked defers merged into ONE deferred func that does the bookkeeping first:
+      `connsWg.Add(-1)`, THEN `conn.Close()`, then the map entry ("a TLS close may take seconds and must not
+      delay the bookkeeping") -/
+  decBeforeClose : Bool := false
   deriving DecidableEq, Repr
 
 def stepV (v : Variant) (s : State) : Action → Option State
@@ -562,6 +577,20 @@ def stepV (v : Variant) (s : State) : Action → Option State
         (s.shuts k).sigs = [] then
       some (setShut s k (ctxDone (s.shuts k) .cancel))
     else step s (.sig n k)
+  | .conn c .counterDec =>
+    -- the decrement comes FIRST (from `deferredClose`), and `conn.Close()` begins right after it
+    if v.decBeforeClose = true then
+      if (s.conns c).pc = .deferredClose then
+        some (applyEff (setConn s c { s.conns c with pc := .closingSock }) c .dec) else none
+    else step s (.conn c .counterDec)
+  | .conn c .closeStart =>
+    if v.decBeforeClose = true then none else step s (.conn c .closeStart)
+  | .conn c .closeDone =>
+    -- `conn.Close()` returns: on to the unregistration, the counter was decremented long ago
+    if v.decBeforeClose = true then
+      if (s.conns c).pc = .closingSock then
+        some (setConn s c { s.conns c with pc := .waitingForLockUnreg, sockClosed := true }) else none
+    else step s (.conn c .closeDone)
   | a => step s a
 
 def runV (v : Variant) (s : State) : List Action → Option State
